@@ -204,6 +204,8 @@ func checkOutputModes(c *c16Case) (key, msg string, echoes int) {
 		{"default", al.LinterOptions{Color: al.ColorOptionKindNever}},
 		{"default-color", al.LinterOptions{Color: al.ColorOptionKindAlways}},
 		{"json", al.LinterOptions{Format: "{{json .}}"}},
+		{"jsonl", al.LinterOptions{Format: `{{range $err := .}}{{json $err}}\n{{end}}`}},
+		{"fields", al.LinterOptions{Format: `{{range $e := .}}{{json $e.Filepath}} {{$e.Line}} {{$e.Column}} {{json $e.Kind}} {{json $e.Message}}\n{{end}}`}},
 	} {
 		out, errs, err, pan := lintWith(c.YAML, mode.opts)
 		if pan != nil || err != nil {
@@ -275,10 +277,29 @@ func checkOutputModes(c *c16Case) (key, msg string, echoes int) {
 			if got != want.String() {
 				return "C16/default-mode-rendering", fmt.Sprintf("default mode output differs from the reference rendering\n--- got\n%s\n--- want\n%s", got, want.String()), echoes
 			}
-		case "json":
+		case "json", "jsonl", "fields":
 			var fs []al.ErrorTemplateFields
-			if err := json.Unmarshal([]byte(out), &fs); err != nil {
-				return "C16/json-output-invalid", fmt.Sprintf("%v\n%q", err, out), echoes
+			switch mode.name {
+			case "json":
+				if err := json.Unmarshal([]byte(out), &fs); err != nil {
+					return "C16/json-output-invalid", fmt.Sprintf("%v\n%q", err, out), echoes
+				}
+			default:
+				// a stream of JSON values (the json template function ends each value with a line break)
+				dec := json.NewDecoder(strings.NewReader(out))
+				for dec.More() {
+					var f al.ErrorTemplateFields
+					dsts := []any{&f}
+					if mode.name == "fields" {
+						dsts = []any{&f.Filepath, &f.Line, &f.Column, &f.Kind, &f.Message}
+					}
+					for _, dst := range dsts {
+						if err := dec.Decode(dst); err != nil {
+							return "C16/json-output-invalid(" + mode.name + ")", fmt.Sprintf("%v\n%q", err, out), echoes
+						}
+					}
+					fs = append(fs, f)
+				}
 			}
 			if len(fs) != len(ref) {
 				return "C16/json-count", fmt.Sprintf("%d vs %d", len(fs), len(ref)), echoes
@@ -319,7 +340,7 @@ var c16Hostile = []string{"a\nb", "a\rb", "tab\there", "\x1b[31mred", "\x00", "\
 
 func TestC16(t *testing.T) {
 	hx.Main(t, "C16", func(r *hx.Run) {
-		r.Rule = "(a) renderer in isolation: arbitrary (line, column) in [-3, 2*len] and arbitrary source bytes (empty, no trailing newline, CRLF, tabs, wide/combining characters, invalid UTF-8, very long lines) through Error.PrettyPrint and GetTemplateFields; never panics, header line exact, snippet = the referenced source line, caret at the terminal cell of the reported column, nothing for a non-existent line. (b) end to end: generated workflows in which 1-6 keys/values are replaced by hostile strings (line breaks, controls, ESC, NEL/LS/PS, wide/RTL, quotes, %, %!s(, ' [x]', ']', ': 1:1: ', invalid UTF-8) so that they are echoed in messages; rendered in -oneline (with/without colour), default (with/without colour) and -format '{{json .}}'; one output line per diagnostic which the shipped problem-matcher regexp parses back to the same fields, default mode equals a reference rendering, JSON round-trips, no message contains a line break. Non-trivial: (a) existing line with column inside it; (b) >= 1 message echoing a hostile character; distinct = input hash."
+		r.Rule = "(a) renderer in isolation: arbitrary (line, column) in [-3, 2*len] and arbitrary source bytes (empty, no trailing newline, CRLF, tabs, wide/combining characters, invalid UTF-8, very long lines) through Error.PrettyPrint and GetTemplateFields; never panics, header line exact, snippet = the referenced source line, caret at the terminal cell of the reported column, nothing for a non-existent line. (b) end to end: generated workflows in which 1-6 keys/values are replaced by hostile strings (line breaks, controls, ESC, NEL/LS/PS, wide/RTL, quotes, %, %!s(, ' [x]', ']', ': 1:1: ', invalid UTF-8) so that they are echoed in messages; rendered in -oneline (with/without colour), default (with/without colour), -format '{{json .}}', a JSON-Lines template and a field-by-field template; one output line per diagnostic which the shipped problem-matcher regexp parses back to the same fields, default mode equals a reference rendering, JSON round-trips, no message contains a line break. Non-trivial: (a) existing line with column inside it; (b) >= 1 message echoing a hostile character; distinct = input hash."
 		r.Assumptions = []string{"terminal cell width of a prefix is computed with go-runewidth (the de-facto standard East-Asian-width table); reported columns are byte columns into the source line", "matcher: /repo/.github/actionlint-matcher.json as shipped"}
 		lineGen := rapid.OneOf(
 			rapid.SampledFrom([]string{"", "on: push", "  key: value", "\tkey:\tvalue", "name: 日本語のジョブ ${{ x }}", "e\u0301e\u0301 x", "😀 emoji: ${{ y }}", "    - run: echo 'hi'", "a\rb", "\xff\xfe bad utf8", strings.Repeat("x", 70000), " ", "\u202eabc"}),
